@@ -16,15 +16,52 @@ type Entry struct {
 	Known string `json:"known"`
 }
 
+// Item is one registration on the server, in registration order: K = intro
+// (extension.Introspection{}), mut (a user OperationContextMutator extension
+// writing DisableIntrospection = (W == "t")), mw (an AroundOperations guard
+// writing W before next, or passing when W == "-").
+type Item struct {
+	K string `json:"k"`
+	W string `json:"w"`
+}
+
 type Op struct {
 	Ext     string  `json:"ext"`
+	Chain   []Item  `json:"chain"`
 	Entries []Entry `json:"entries"`
+}
+
+// ChainSig spells the registration order, e.g. "Wt>I>Mf" ("" = nothing registered).
+func (o *Op) ChainSig() string {
+	p := []string{}
+	for _, it := range o.Chain {
+		switch it.K {
+		case "intro":
+			p = append(p, "I")
+		case "mut":
+			p = append(p, "M"+it.W)
+		case "mw":
+			p = append(p, "W"+it.W)
+		default:
+			p = append(p, "?"+it.K)
+		}
+	}
+	return strings.Join(p, ">")
+}
+
+// Disabled: does the gate machine say introspection is disabled when the fields execute?
+func (g *GateCase) Disabled() bool {
+	if g.Dis != "" {
+		return g.Dis == "t"
+	}
+	return g.Op.Ext == "f" // scenarios recorded before the registration order became part of the operation
 }
 
 // GateCase is one line exported by TLC for the gate machine.
 type GateCase struct {
 	Op       Op                `json:"op"`
 	Res      map[string]string `json:"res"` // response key -> typename | value | null_err | null | data
+	Dis      string            `json:"dis"` // DisableIntrospection when the fields execute: what the last writer decided
 	DataNull string            `json:"datanull"`
 }
 
@@ -46,7 +83,7 @@ func (o *Op) Class() string {
 		}
 		p = append(p, e.Pos+"/"+e.Via+"/"+e.Arg+"/"+alias)
 	}
-	return "ext=" + o.Ext + ";" + strings.Join(p, "+")
+	return "chain=" + o.ChainSig() + ";" + strings.Join(p, "+")
 }
 
 // Render concretises the operation. knownType is a type name that exists in
@@ -173,7 +210,7 @@ func CheckGate(gc *GateCase, r *Response, gateErrs []string, query string, vars 
 		// The corpus consists of valid operations (none is rejected on the pristine tree); a server
 		// that refuses them while introspection is disabled still satisfies the property, one that
 		// refuses them while it is enabled does not answer introspection.
-		if gc.Op.Ext == "t" {
+		if !gc.Disabled() {
 			add("gate-closed-while-enabled:rejected", "introspection is enabled but the operation was rejected before execution: %v", gateErrs)
 		} else if r.Data != nil {
 			add("gate-data-shape", "operation rejected (%v) but data is %s", gateErrs, trunc(r.Raw, 300))
@@ -184,7 +221,7 @@ func CheckGate(gc *GateCase, r *Response, gateErrs []string, query string, vars 
 	for _, e := range r.Errors {
 		errAt[pathKey(e.Path)]++
 	}
-	disabled := gc.Op.Ext == "f"
+	disabled := gc.Disabled()
 	keys := make([]string, 0, len(gc.Res))
 	for k := range gc.Res {
 		keys = append(keys, k)
